@@ -125,12 +125,18 @@ Definition split (c : (nat * nat * mat nat * list nat) + (nat * mat nat)) : mat 
   end.
 Definition extr (c : nat * nat * mat nat) : mat nat := let '(nv, nl, t) := c in extrude_t nv nl t.
 '''
-    ctx.corr('reix', imp, 'reix_all', 'reix_out_eqb', reix_cases, defs=defs, nontrivial=lambda r: r[3] >= 2)
-    ctx.corr('restrict_tags', imp, 'retag', 'zs_eqb', tag_cases, defs=defs, nontrivial=lambda r: r[3] >= 1)
-    ctx.corr('restricted_t_and_facets', imp, 'restricted', '(pair_eqb natss_eqb natss_eqb)', fac_cases, defs=defs,
-             nontrivial=lambda r: 2 <= r[2])
-    ctx.corr('splits', imp, 'split', '(pair_eqb natss_eqb nats_eqb)', split_cases, defs=defs, nontrivial=lambda r: r[2] >= 2)
-    ctx.corr('extrude', imp, 'extr', 'natss_eqb', ext_cases, defs=defs, nontrivial=lambda r: r[1] >= 3)
+    jobs = [
+        lambda: ctx.corr('reix', imp, 'reix_all', 'reix_out_eqb', reix_cases, defs=defs, nontrivial=lambda r: r[3] >= 2),
+        lambda: ctx.corr('restrict_tags', imp, 'retag', 'zs_eqb', tag_cases, defs=defs, nontrivial=lambda r: r[3] >= 1),
+        lambda: ctx.corr('restricted_t_and_facets', imp, 'restricted', '(pair_eqb natss_eqb natss_eqb)', fac_cases,
+                         defs=defs, nontrivial=lambda r: 2 <= r[2]),
+        lambda: ctx.corr('splits', imp, 'split', '(pair_eqb natss_eqb nats_eqb)', split_cases, defs=defs,
+                         nontrivial=lambda r: r[2] >= 2),
+        lambda: ctx.corr('extrude', imp, 'extr', 'natss_eqb', ext_cases, defs=defs, nontrivial=lambda r: r[1] >= 3),
+    ]
+    from concurrent.futures import ThreadPoolExecutor
+    with ThreadPoolExecutor(len(jobs)) as ex:          # the coqc runs are independent processes
+        list(ex.map(lambda j: j(), jobs))
 
 
 # ------------------------------------------------------------------------------ oracle
@@ -142,16 +148,13 @@ def run_op(ctx, op, m, rng):
     try:
         M, info = op(m, rng)
     except O.Fail as e:
-        key = e.what if e.what == O.KEY_DUP else f'{e.what}:{name}'
+        key = f'{e.what}:{name}'
         ctx.fail(key, f'{op.__name__[3:]} on a {name}: {e.what} ({e.detail})',
                  {'mesh': mesh_json(m), 'op': op.__name__, 'rng_state': _state_json(state), 'detail': str(e.detail)})
         return None
     except Exception as e:                                # noqa: BLE001 — an exception IS a failing input
         tb = traceback.format_exc()
         key = f'exception:{op.__name__[3:]}:{name}:{type(e).__name__}'
-        if 'arrays used as indices must be of integer' in str(e) and any(
-                np.asarray(b).dtype.kind == 'f' for b in (m.boundaries or {}).values()):
-            key = 'boundary-dtype:to_meshtri'
         ctx.fail(key, f'{op.__name__[3:]} on a {name} raises {type(e).__name__}: {e}',
                  {'mesh': mesh_json(m), 'op': op.__name__, 'rng_state': _state_json(state), 'traceback': tb[-1500:],
                   'boundary_dtypes': {k: str(np.asarray(b).dtype) for k, b in (m.boundaries or {}).items()}})
@@ -187,7 +190,7 @@ def oracle(ctx):
                 M = M.with_subdomains(sub).with_boundaries(bnd)
             m = M
         ctx.hist('chain_length', step + 1)
-    # the empty named boundary through to_meshtri and on into restrict (a composition the random chains hit rarely)
+    # an empty named boundary through to_meshtri and on into restrict (a composition the random chains hit rarely)
     import skfem
     q = skfem.MeshQuad1().refined(1).with_boundaries({'none': np.array([], dtype=np.int32), 'left': lambda x: x[0] == 0})
     M = run_op(ctx, O.op_to_meshtri, q, rng)
